@@ -52,7 +52,12 @@ def build(case):
     rng = random.Random(case["wseed"])
     shape = tuple(case["shape"])
     wcs = W.make_wcs(rng, shape, case["fam"], True)
-    cube = NDCube(C.payload(shape, 0), wcs=wcs)
+    cube = None
+    if case["wseed"] % 7 == 3:
+        # (one cube in seven is reached by slicing a larger one by ranges: see common.via_slicing)
+        cube = C.via_slicing(C.payload(tuple(shape), 0), wcs, case["wseed"])
+    if cube is None:
+        cube = NDCube(C.payload(shape, 0), wcs=wcs)
     for k, ec in enumerate(case["ecs"]):
         if ec["kind"] == "quantity2":
             a0, a1 = ec["axis"]
